@@ -35,6 +35,30 @@ func cmdReplay(args []string) int {
 		return 1
 	}
 	fmt.Printf("obligation: %v\nfunction:   %v (%v)\nat:         %v\nsolver:     %v -> %v\n", rep["obligation"], rep["function"], rep["mode"], rep["at"], rep["solver"], rep["status"])
+	if r, ok := rep["replay_search"].(map[string]any); ok {
+		if src, ok := r["test_source"].(string); ok && src != "" {
+			fn, _ := rep["function"].(string)
+			pkg := fn
+			if i := strings.LastIndex(pkg, "."); i >= 0 {
+				pkg = pkg[:i]
+			}
+			if i := strings.Index(pkg, ".("); i >= 0 {
+				pkg = pkg[:i]
+			}
+			out, _ := runOverlaySource(pkg, src, "zz_gocv_replay_search_test.go", "TestGocvReplaySearch", 120*time.Second)
+			for _, l := range strings.Split(out, "\n") {
+				if strings.HasPrefix(l, "GOCV-REPLAY") {
+					fmt.Println(l)
+				}
+			}
+			if strings.Contains(out, "GOCV-REPLAY holds=false") || strings.Contains(out, "GOCV-REPLAY panic=") {
+				fmt.Println("replayed: the real code falsifies the obligation on this input (search over the recorded domain)")
+				return 1
+			}
+			fmt.Println("not reproduced on the current tree (no failing input in the recorded search domain)")
+			return 0
+		}
+	}
 	if r, ok := rep["replay"].(map[string]any); ok {
 		if src, ok := r["test_source"].(string); ok && src != "" {
 			fn, _ := rep["function"].(string)
